@@ -292,6 +292,7 @@ class Executor:
         self.auto_havoc = False
         self.subsume_key = None    # optional fn(state) -> hashable: states with an already-seen key are dropped (coarse merging)
         self.execute_real = []     # regexes of crate functions that are executed although auto_havoc is on
+        self.auto_invoke_closures = False   # closures passed to auto-havoc'd callees are run once on arbitrary arguments
         self.auto_frames = {}      # struct name -> set of field indices auto-havoc'd callees are assumed not to touch
         from . import models
         self.models = models.REGISTRY
@@ -1457,7 +1458,37 @@ class Executor:
             raise Abort('unmodelled', 'auto-havoc of %s: unknown return type' % cs.callee)
         if cs.ret_block is None:
             raise Abort('diverge', cs.callee)
-        return self.ret(st, cs, self.fresh(st, ty, 'ah'))
+        closures = self._closures_in(st, cs.args) if self.auto_invoke_closures else []
+        if not closures:
+            return self.ret(st, cs, self.fresh(st, ty, 'ah'))
+        # an abstracted callee may call the closures it is given: each is run once on arbitrary arguments (its result is dropped)
+        self.havoc_used.add('[auto] closures handed to abstracted callees are invoked once with arbitrary arguments')
+
+        def chain(s, k):
+            if k == len(closures):
+                return self.ret(s, cs, self.fresh(s, ty, 'ah'))
+            f = closures[k]
+            fname = self.closure_fn(f.ty)
+            if fname is None:
+                return chain(s, k + 1)
+            fn = self.mir.get(fname)
+            cargs = [self.fresh(s, t, 'clarg') for (a, t) in fn.args[1:]]
+            return self.invoke_callable(s, f, cargs, lambda e_, s2, val: chain(s2, k + 1))
+        return chain(st, 0)
+
+    def _closures_in(self, st, vals, depth=0):
+        out = []
+        if depth > 3:
+            return out
+        for v in vals:
+            if isinstance(v, Ref) and v.addr in st.store and not v.path:
+                v = st.store[v.addr]
+            if isinstance(v, Agg):
+                if v.kind == 'closure':
+                    out.append(v)
+                else:
+                    out += self._closures_in(st, list(v.fields.values()), depth + 1)
+        return out
 
     def do_return(self, st):
         fr = st.frames.pop()
